@@ -649,7 +649,14 @@ is_ctl(victim *v, nng_msg *m, uint32_t *seq)
 // victim side: receive until the control message 'seq' shows up (hostile
 // traffic met on the way goes through the oracle).  Returns it or NULL.
 static nng_msg *
+v_wait_ctl2(victim *v, uint32_t minseq, uint32_t seq, int ms);
+static nng_msg *
 v_wait_ctl(victim *v, uint32_t seq, int ms)
+{
+	return v_wait_ctl2(v, seq, seq, ms);
+}
+static nng_msg *
+v_wait_ctl2(victim *v, uint32_t minseq, uint32_t seq, int ms)
 {
 	uint64_t end = vf_now_ns() + (uint64_t) ms * 1000000ULL;
 	for (;;) {
@@ -659,7 +666,7 @@ v_wait_ctl(victim *v, uint32_t seq, int ms)
 		if (rv == 0) {
 			uint32_t s;
 			if (is_ctl(v, m, &s)) {
-				if (s == seq) return m;
+				if (s >= minseq && s <= seq) return m;
 				nng_msg_free(m);
 			} else {
 				oracle_rx(v, m);
@@ -714,15 +721,22 @@ exchange(victim *v, int k)
 	ctlsock *c   = &v->ctl[k];
 	uint64_t end = vf_now_ns() + 6000ULL * 1000000ULL;
 	int      tries = 0;
+	// udp: the transport hands a datagram that arrived while no receive was
+	// pending to the protocol only when the next one arrives, so a message
+	// may surface one retry late; any message of this exchange proves that
+	// the connection works, and the reply leg is not demanded
+	bool     udp  = v->tran == T_UDP;
+	uint32_t seq0 = v->ctl_seq + 1;
 	while (vf_now_ns() < end) {
 		uint32_t seq = ++v->ctl_seq;
+		uint32_t lo  = udp ? seq0 : seq;
 		nng_msg *m;
 		tries++;
 		switch (v->vp->ck) {
 		case CK_C2V_1W:
 			m = ctl_msg(v, seq);
 			if (nng_sendmsg(c->s, m, NNG_FLAG_NONBLOCK) != 0) nng_msg_free(m);
-			if ((m = v_wait_ctl(v, seq, 60 + 20 * tries)) != NULL) {
+			if ((m = v_wait_ctl2(v, lo, seq, 60 + 20 * tries)) != NULL) {
 				nng_msg_free(m);
 				return true;
 			}
@@ -730,7 +744,11 @@ exchange(victim *v, int k)
 		case CK_C2V_RR:
 			m = ctl_msg(v, seq);
 			if (nng_sendmsg(c->s, m, NNG_FLAG_NONBLOCK) != 0) nng_msg_free(m);
-			if ((m = v_wait_ctl(v, seq, 60 + 20 * tries)) != NULL) {
+			if ((m = v_wait_ctl2(v, lo, seq, 60 + 20 * tries)) != NULL) {
+				if (udp) {
+					nng_msg_free(m);
+					return true;
+				}
 				if (nng_sendmsg(v->s, m, 0) != 0) {
 					nng_msg_free(m);
 					break;
@@ -756,7 +774,7 @@ exchange(victim *v, int k)
 			while (vf_now_ns() < e2) {
 				ctl_service(v, 0);
 				ctl_service(v, 1);
-				if (c->seen_seq >= seq) return true;
+				if (c->seen_seq >= lo) return true;
 				vf_usleep(300);
 			}
 			break;
@@ -776,6 +794,7 @@ exchange(victim *v, int k)
 			}
 			if (vf_verbose) fprintf(stderr, "  xchg V2C_RR k=%d seq=%u replied=%d seen=%u/%u pre=%d rem=%d\n", k, seq, replied, v->ctl[0].seen_seq, v->ctl[1].seen_seq, atomic_load(&v->pre), atomic_load(&v->rem));
 			if (replied && c->seen_seq >= seq) return true;
+			if (udp && c->seen_seq >= lo) return true;
 			break;
 		}
 		}
@@ -805,7 +824,7 @@ static bool zombie_seen[T_N];
 static void
 settle(victim *v, int ms)
 {
-	if ((zombie_seen[v->tran] || v->vanished) && ms > 150) ms = 150;
+	if ((zombie_seen[v->tran] || v->tran == T_UDP) && ms > 150) ms = 150;
 	uint64_t end = vf_now_ns() + (uint64_t) ms * 1000000ULL;
 	for (;;) {
 		pump(v);
@@ -815,16 +834,24 @@ settle(victim *v, int ms)
 		int extra = 0;
 		if (vf_quiesce(1, 30)) {
 			extra = vf_pipe_count(v->s) - live_ctl(v) - v->lingering;
+			if (extra < 0 && v->tran == T_UDP) {
+				v->lingering += extra; // kept peers have expired meanwhile
+				if (v->lingering < 0) v->lingering = 0;
+			}
 			if (extra <= 0) {
 				pump(v);
 				return;
 			}
 		}
 		if (vf_now_ns() > end) {
-			if (extra > 0 && v->vanished) {
-				// a udp peer that left without DISC stays until its keep-alive expires
-				vf_stat("udp_vanished_peers_kept", extra);
+			if (v->tran == T_UDP) {
+				// udp peers that left without a DISC that arrived (the raw
+				// peer on purpose, an nng client because its DISC is dropped
+				// when the endpoint closes) stay until their keep-alive
+				// expires: not judged, just accounted for
+				if (extra > 0) vf_stat("udp_peers_kept_after_leaving", extra);
 				v->lingering += extra;
+				if (v->lingering < 0) v->lingering = 0;
 			} else if (extra > 0) {
 				vf_stat("zombie_pipes", extra);
 				vf_class("zombie-pipe/%s/%s/%s", tnames[v->tran], v->vp->name, v->cur_mut);
@@ -889,6 +916,7 @@ check_bystanders(victim *v, bool do_new, bool attacker_present)
 		}
 	}
 	if (!do_new) return;
+	if (vp->single && v->tran == T_UDP && v->ctl[o].open) return; // a closing nng udp client's DISC is not reliably sent: the slot stays taken for its keep-alive time
 	if (vp->single) {
 		if (attacker_present) return; // the slot is legitimately taken
 		ctl_close(v, o);
